@@ -25,6 +25,8 @@ def run(ctx):
                        "CircuitBreaker under a virtual clock; traces = seeded random histories of the real breaker validated by TLC "
                        "against the contract; non-trivial = distinct behaviours/traces that contain at least one state transition")
     ctx.assumptions += ["virtual clock installed through the package variable nowFunc",
+                        "a call that failed and was slow is a failure (counts for the failure rate); whether it also counts for the "
+                        "slow-call rate is left open: where the two readings differ the contract allows both outcomes",
                         "time window interpreted at the one-second granularity the code buckets by"]
     # 1. exhaustive model checking of the contract (the property's clauses are theorems of it)
     if ctx.quick:
@@ -75,11 +77,17 @@ def _mbt(ctx):
                 seen.add("acq:%s->%s:%s" % (prev, s["st"], s["ok"]))
             elif s["a"] == "rec":
                 seen.add("rec:stale" if s["stale"] else "rec:%s->%s" % (prev, s["st"]))
+                if s.get("dec"):
+                    seen.add("rec:failed-and-slow call decides (%s->open)" % prev)
+                if s.get("free"):
+                    seen.add("rec:free")
             if "st" in s:
                 prev = s["st"]
     need = {"acq:closed->closed:True", "acq:open->open:False", "acq:open->halfopen:True", "acq:halfopen->halfopen:True",
             "acq:halfopen->halfopen:False", "acq:halfopen->open:False", "rec:stale", "rec:closed->open", "rec:closed->closed",
-            "rec:halfopen->open", "rec:halfopen->closed", "rec:halfopen->halfopen"}
+            "rec:halfopen->open", "rec:halfopen->closed", "rec:halfopen->halfopen",
+            # completions that are failed AND slow, on a step where counting them as failures is what opens the breaker
+            "rec:failed-and-slow call decides (closed->open)", "rec:failed-and-slow call decides (halfopen->open)"}
     ctx.cov["action_classes_replayed"] = sorted(seen)
     if need - seen:
         ctx.inconclusive("C08 behaviours never exercised: %s" % sorted(need - seen))
